@@ -333,6 +333,21 @@ pub fn build(ctx: &Ctx) -> Property {
     add::<backends::V3L>(&mut p, ctx);
     add::<backends::V4>(&mut p, ctx);
     add::<backends::V4S>(&mut p, ctx);
+    macro_rules! seq {
+        ($V:ty) => {
+            for sub in ["pie", "pbkw", "pke"] {
+                let name = format!("{}/{sub}", <$V as Full>::NAME);
+                let len = p.subs.iter().find(|s| s.name == name).map(|s| s.len).unwrap_or(0);
+                crate::perturb::add_sequences::<$V>(&mut p, &name, crate::perturb::spread(len, 4));
+            }
+        };
+    }
+    seq!(backends::V1);
+    seq!(backends::V2);
+    seq!(backends::V3);
+    seq!(backends::V3L);
+    seq!(backends::V4);
+    seq!(backends::V4S);
     p.assume("PBKW cost parameters are enumerated inside the property's budget (<= 64 MiB, <= 3 passes, <= 10000 iterations) plus the library defaults");
     p.assume("aws-lc's ephemeral keys / nonces cannot be chosen: those cases are repeated and only the round-trip invariant is asserted");
     p
